@@ -401,7 +401,14 @@ def _finite_differences(col, rule="C16.R3"):
         if okc:
             v = cols[0].value
             mm = S.match(v, ("op", "/", ("op", "-", ("call", S.SELF, S.V("a"), S.V("k")), S.V("f0")), step))
-            okc = mm is not None and mm["a"][:1] == (xc,) and cfg.dominates(plus[0].nid, cols[0].nid) and cfg.dominates(cols[0].nid, minus[0].nid)
+            okc = mm is not None and mm["a"][:1] == (xc,)
+            if okc:
+                # the *evaluation* f(x + h_i) lies between the perturbation and its undoing (the quotient may be stored later)
+                call_t = ("call", S.SELF, mm["a"], mm["k"])
+                evals = [ev.nid for ev in sx.of_kind("call") if ev.term == call_t]
+                okc = bool(evals) and all(cfg.dominates(plus[0].nid, n_) and cfg.dominates(n_, minus[0].nid) for n_ in evals
+                                          if cfg.path_avoiding(plus[0].nid, n_, []))
+                okc = okc and any(cfg.path_avoiding(plus[0].nid, n_, []) for n_ in evals)
             if okc:
                 f0 = mm["f0"]
                 f0p = sx.pnamed("f0") if "f0" in sx.sym.params else None
